@@ -113,6 +113,40 @@ class Shear(Interp):
         self.err('trapezoid branch of calculate_shear is not modelled')
 
 
+class SigmaSolve(Interp):
+    """solve_sigma_equation: newton() is an oracle returning a state vector (iota in slot 0, sigma elsewhere);
+    the glue  iota = x[0]; sigma[0] = sigma0  is translated exactly."""
+    def e_Call(self, e):
+        import ast
+        if ast.unparse(e.func) == 'newton':
+            src = [ast.unparse(a) for a in e.args] + ['%s=%s' % (k.arg, ast.unparse(k.value)) for k in e.keywords]
+            if src != ['self._residual', 'x0', 'jac=self._jacobian']:
+                self.err('unexpected newton() call: %s' % src, e)
+            self.inputs['newton_xs'] = 'p'; self.inputs['newton_xi'] = 's'
+            self.aux_progs['newton'] = {'unknowns': ['newton_xs', 'newton_xi'], 'equations': [], 'residual_program': 'residual', 'x0': 'x0'}
+            return StateVec(var('newton_xs', 'p'), var('newton_xi', 's'))
+        return Interp.e_Call(self, e)
+
+    def bind_value(self, name, v, is_attr):
+        if isinstance(v, StateVec):
+            # self.sigma = <state vector>: kept symbolic until the pin  self.sigma[0] = self.sigma0
+            return v
+        return Interp.bind_value(self, name, v, is_attr)
+
+    def store_sub(self, tgt, val, node):
+        obj = self.expr(tgt.value)
+        idx = self.index(tgt.slice)
+        nm, is_attr = self.target_name(tgt.value)
+        if isinstance(obj, StateVec) and idx == (0,):
+            new = E('Pin0', (obj.tail, lift(val)), 'p')
+            if is_attr:
+                self.selfobj._attrs[nm] = Interp.bind_value(self, nm, new, True)
+            else:
+                self.locals[nm] = Interp.bind_value(self, nm, new, False)
+            return
+        return Interp.store_sub(self, tgt, val, node)
+
+
 class Jac(Interp):
     """_jacobian: the returned matrix is  D/dvarphi + diag(d) with column 0 replaced by c.
     Emitted as the Jacobian-vector product  ret = J @ h  for a symbolic direction h."""
@@ -171,6 +205,7 @@ def programs(kinds):
     X = StateVec(var('xs', 'p'), var('xi', 's'))
     P.append(('qsc/calculate_r1.py', '_residual', '', {}, {'x': X}, Interp))
     P.append(('qsc/calculate_r1.py', '_jacobian', '', {}, {'x': X}, Jac))
+    P.append(('qsc/calculate_r1.py', 'solve_sigma_equation', '', {}, {}, SigmaSolve))
     P.append(('qsc/calculate_r1.py', 'r1_diagnostics', 'h0', H0, {}, Interp))
     P.append(('qsc/calculate_r1.py', 'r1_diagnostics', 'hN', HN, {}, Interp))
     P.append(('qsc/grad_B_tensor.py', 'calculate_grad_B_tensor', '', {'hasattr(__len__)': False}, {}, Interp))
